@@ -60,8 +60,10 @@ m = {
     "setup_cmd": "/venv/bin/python setup_check.py",
     "hooks": {
         "guard": "REAMBERPY_VERIF",
-        "enable": "no source hooks: the library is sequential and every abstract state is observable through its "
-                  "public API; checks import reamber from VERIF_REPO (default /repo) at run time",
+        "enable": "no source hooks in /repo: the library is sequential and every abstract state is observable through its "
+                  "public API; checks import reamber from VERIF_REPO (default /repo) at run time. REAMBERPY_VERIF=1 switches on "
+                  "the harness-side pytest plugin harness/recorder.py (PYTHONPATH=/verif, -p harness.recorder), which wraps the "
+                  "timed-list operations while the repository's own tests run and logs trace records to REAMBERPY_VERIF_TRACE",
         "baseline_off_cmd": "cd /repo && /venv/bin/python -m pytest -ra -q -p no:cacheprovider --timeout=900 "
                             "--continue-on-collection-errors",
         "source_commits": [],
